@@ -5,7 +5,8 @@ open Monero
 /-! Structured models of the fixed-width records that `Model/Block.lean` and `Model/Tx.lean` flatten to one `takeN`:
 `Key64` (a loop over 64 keys, ringct.rs:106-126), `[T; N]` (`impl_array!`: N element reads, encode.rs:424-458),
 `BoroSig { s0: Key64, s1: Key64, ee: Key }`, `RangeSig { asig, Ci: Key64 }`, `Signature { c, r }`, and the 6 + 3 keys of
-`Bulletproof` / 6 keys of `BulletproofPlus`. They are written field by field / element by element, as the Rust is; the
+`Bulletproof` / 6 keys of `BulletproofPlus` (`bpS`, `bppS`: `A S T1 T2 taux mu`, `L`, `R`, `a b t` / `A A1 B r1 s1 d1`, `L`, `R`
+read key by key). They are written field by field / element by element, as the Rust is; the
 theorems say that reading them that way consumes exactly the bytes of the flat `takeN`, with the same rest, and that the
 concatenation of the parts is the flat value — so the flat models used by the driver and by the transaction model are
 faithful to the element-wise Rust code. -/
@@ -122,5 +123,69 @@ theorem sound_rangeSigS : Sound encRangeSigS rangeSigS := by
   simp only [Option.map_some] at hf
   have := sound_takeN 6176 b (encRangeSigS x) r (by unfold rangeSig at hf; exact hf.symm)
   simpa using this
+
+/-- `BoroSig` alone is sound -/
+theorem sound_boroSigS : Sound encBoroS boroSigS := by
+  intro b x r h
+  unfold boroSigS at h
+  obtain ⟨s0, r0, h0, h1⟩ := bind_some h
+  obtain ⟨s1, r1, h1', h2⟩ := bind_some h1
+  obtain ⟨ee, r2, h2', h3⟩ := bind_some h2
+  obtain ⟨rfl, rfl⟩ := pure_some h3
+  rw [sound_key64S _ _ _ h0, sound_key64S _ _ _ h1', sound_key _ _ _ h2']
+  simp [encBoroS]
+
+/-- `Bulletproof { A, S, T1, T2, taux, mu, L, R, a, b, t }` (`impl_consensus_encoding!`, ringct.rs): six keys, two key vectors,
+three keys — read key by key -/
+def bpS : Dec (List Bytes × List Bytes × List Bytes × List Bytes) :=
+  bind (rep key 6) fun f => bind (vec sizes.key key) fun l => bind (vec sizes.key key) fun r => bind (rep key 3) fun t => pure' (f, l, r, t)
+/-- `BulletproofPlus { A, A1, B, r1, s1, d1, L, R }`: six keys, two key vectors -/
+def bppS : Dec (List Bytes × List Bytes × List Bytes) :=
+  bind (rep key 6) fun f => bind (vec sizes.key key) fun l => bind (vec sizes.key key) fun r => pure' (f, l, r)
+
+/-- reading a Bulletproof key by key gives the value of the flat model `bp` (192-byte head, L, R, 96-byte tail) and the same rest -/
+theorem bpS_flat (b : Bytes) :
+    (bpS b).map (fun p => ((⟨p.1.1.flatten, p.1.2.1, p.1.2.2.1, p.1.2.2.2.flatten⟩ : BP), p.2)) = bp b := by
+  unfold bpS bp key
+  unfold Monero.bind
+  rw [← rep_takeN_flat 32 6 b]
+  cases rep (takeN 32) 6 b with
+  | none => rfl
+  | some p =>
+    obtain ⟨f, r0⟩ := p
+    simp only [Option.map_some]
+    cases vec sizes.key (takeN 32) r0 with
+    | none => rfl
+    | some q =>
+      obtain ⟨l, r1⟩ := q
+      simp only
+      cases vec sizes.key (takeN 32) r1 with
+      | none => rfl
+      | some q2 =>
+        obtain ⟨rr, r2⟩ := q2
+        simp only
+        rw [← rep_takeN_flat 32 3 r2]
+        cases rep (takeN 32) 3 r2 with
+        | none => rfl
+        | some q3 => rfl
+
+theorem bppS_flat (b : Bytes) :
+    (bppS b).map (fun p => ((⟨p.1.1.flatten, p.1.2.1, p.1.2.2⟩ : BPP), p.2)) = bpp b := by
+  unfold bppS bpp key
+  unfold Monero.bind
+  rw [← rep_takeN_flat 32 6 b]
+  cases rep (takeN 32) 6 b with
+  | none => rfl
+  | some p =>
+    obtain ⟨f, r0⟩ := p
+    simp only [Option.map_some]
+    cases vec sizes.key (takeN 32) r0 with
+    | none => rfl
+    | some q =>
+      obtain ⟨l, r1⟩ := q
+      simp only
+      cases vec sizes.key (takeN 32) r1 with
+      | none => rfl
+      | some q2 => rfl
 
 end Monero
